@@ -7,36 +7,29 @@ namespace FV.Earley
 
 /-! ### the core item space -/
 
-/-- every core item column `j` can hold: the two `<*start*>` items and, per compiled rule, every dot
-    position and every origin `≤ j` -/
+/-- the compiled rules plus the rule of `<*start*>` -/
+def Cfg.rules' (c : Cfg) : List CRule := (NT.start, [ESym.plain (.user c.start)]) :: c.rules
+
+/-- every core item column `j` can hold: per rule every dot position and every origin `≤ j` -/
 def itemSpace (c : Cfg) (j : Nat) : List Item :=
-  startItem c.start :: (startItem c.start).next ::
-    c.rules.flatMap (fun (r : CRule) =>
-      (List.range (r.2.length + 1)).flatMap (fun d =>
-        (List.range (j + 1)).map (fun o => ({ lhs := r.1, rhs := r.2, dot := d, origin := o } : Item))))
+  c.rules'.flatMap (fun (r : CRule) =>
+    (List.range (r.2.length + 1)).flatMap (fun d =>
+      (List.range (j + 1)).map (fun o => ({ lhs := r.1, rhs := r.2, dot := d, origin := o } : Item))))
 
 def Item.ok (c : Cfg) (j : Nat) (it : Item) : Prop :=
-  (it = startItem c.start ∨ it = (startItem c.start).next) ∨
-    ((it.lhs, it.rhs) ∈ c.rules ∧ it.dot ≤ it.rhs.length ∧ it.origin ≤ j)
+  (it.lhs, it.rhs) ∈ c.rules' ∧ it.dot ≤ it.rhs.length ∧ it.origin ≤ j
 
 theorem mem_itemSpace {c : Cfg} {j : Nat} {it : Item} : it ∈ itemSpace c j ↔ Item.ok c j it := by
   unfold itemSpace Item.ok
-  simp only [List.mem_cons, List.mem_flatMap, List.mem_map, List.mem_range]
+  simp only [List.mem_flatMap, List.mem_map, List.mem_range]
   constructor
-  · rintro (h | h | ⟨r, hr, d, hd, o, ho, rfl⟩)
-    · exact Or.inl (Or.inl h)
-    · exact Or.inl (Or.inr h)
-    · exact Or.inr ⟨hr, by simp; omega, by simp; omega⟩
-  · rintro ((h | h) | ⟨hr, hd, ho⟩)
-    · exact Or.inl h
-    · exact Or.inr (Or.inl h)
-    · exact Or.inr (Or.inr ⟨(it.lhs, it.rhs), hr, it.dot, by simp only; omega, it.origin, by omega, rfl⟩)
+  · rintro ⟨r, hr, d, hd, o, ho, rfl⟩
+    exact ⟨hr, by simp only; omega, by simp only; omega⟩
+  · rintro ⟨hr, hd, ho⟩
+    exact ⟨(it.lhs, it.rhs), hr, it.dot, by simp only; omega, it.origin, by omega, rfl⟩
 
 theorem Item.ok_mono {c : Cfg} {j j' : Nat} {it : Item} (h : Item.ok c j it) (hj : j ≤ j') :
-    Item.ok c j' it := by
-  rcases h with h | ⟨h1, h2, h3⟩
-  · exact Or.inl h
-  · exact Or.inr ⟨h1, h2, by omega⟩
+    Item.ok c j' it := ⟨h.1, h.2.1, by have := h.2.2; omega⟩
 
 /-- `Σ (|rhs| + 1)` over the rules -/
 def dotSlots (rules : List CRule) : Nat := (rules.map (fun (r : CRule) => r.2.length + 1)).sum
@@ -51,22 +44,15 @@ theorem length_flatMap_const {α β : Type} (l : List α) (f : α → List β) (
     rw [Nat.add_mul]; omega
 
 theorem itemSpace_length (c : Cfg) (j : Nat) :
-    (itemSpace c j).length = 2 + dotSlots c.rules * (j + 1) := by
+    (itemSpace c j).length = dotSlots c.rules' * (j + 1) := by
   unfold itemSpace dotSlots
-  simp only [List.length_cons]
-  have : ∀ rules : List CRule,
-      (rules.flatMap (fun (r : CRule) =>
-        (List.range (r.2.length + 1)).flatMap (fun d =>
-          (List.range (j + 1)).map (fun o => ({ lhs := r.1, rhs := r.2, dot := d, origin := o } : Item))))).length
-        = (rules.map (fun (r : CRule) => r.2.length + 1)).sum * (j + 1) := by
-    intro rules
-    induction rules with
-    | nil => simp
-    | cons r rs ih =>
-      simp only [List.flatMap_cons, List.length_append, List.map_cons, List.sum_cons, ih]
-      rw [length_flatMap_const _ _ (j + 1) (by intro d _; simp)]
-      simp [Nat.add_mul]
-  rw [this]; omega
+  generalize c.rules' = rules
+  induction rules with
+  | nil => simp
+  | cons r rs ih =>
+    simp only [List.flatMap_cons, List.length_append, List.map_cons, List.sum_cons, ih]
+    rw [length_flatMap_const _ _ (j + 1) (by intro d _; simp)]
+    simp [Nat.add_mul]
 
 /-- longest right-hand side -/
 def maxRhs (rules : List CRule) : Nat := (rules.map (fun (r : CRule) => r.2.length)).foldl max 0
@@ -344,5 +330,546 @@ theorem phi_addAt (U : List Item) (A : Nat) (cols : List Col) (k idx e : Nat) (s
   · simp only [he, ↓reduceIte]
     rw [List.set_eq_of_length_le (Nat.le_of_not_lt he)]
     omega
+
+/-! ### well-formed machine states -/
+
+/-- what the theorems need of the parameters: `predict` only adds alternatives of the rule table,
+    a scan never goes backwards -/
+structure Sane (c : Cfg) : Prop where
+  pred : ∀ k x rhs, rhs ∈ c.pred k x → (x, rhs) ∈ c.rules
+  scan : ∀ t k e l, c.scan t k = some (e, l) → k ≤ e
+
+def Cfg.U (c : Cfg) : List Item := itemSpace c c.ncols
+def Cfg.A (c : Cfg) : Nat := 2 * c.U.length + 3
+
+theorem ok_mem_U {c : Cfg} {j : Nat} {it : Item} (h : Item.ok c j it) (hj : j ≤ c.ncols) : it ∈ c.U :=
+  mem_itemSpace.2 (Item.ok_mono h hj)
+
+structure WfC (c : Cfg) (cols : List Col) (k : Nat) : Prop where
+  len : cols.length = c.ncols
+  okS : ∀ j s, s ∈ (colAt cols j).states → Item.ok c j s.item
+  okD : ∀ j s, s ∈ (colAt cols j).dots → Item.ok c j s.item
+  cap : ∀ j, k ≤ j → (colAt cols j).states.length + free c.U (colAt cols j).states ≤ c.U.length
+  capOld : ∀ j, j < k → (colAt cols j).states.length ≤ c.U.length
+  dotsNew : ∀ j, k ≤ j → (colAt cols j).dots.length ≤ (colAt cols j).states.length
+  dotsOld : ∀ j, j < k → (colAt cols j).dots.length ≤ 2 * (colAt cols j).states.length
+
+theorem WfC.states_le {c : Cfg} {cols : List Col} {k : Nat} (hw : WfC c cols k) (j : Nat) :
+    (colAt cols j).states.length ≤ c.U.length := by
+  by_cases h : j < k
+  · exact hw.capOld j h
+  · have := hw.cap j (by omega); omega
+
+theorem WfC.dots_le {c : Cfg} {cols : List Col} {k : Nat} (hw : WfC c cols k) (j : Nat) :
+    (colAt cols j).dots.length ≤ 2 * c.U.length := by
+  have hs := hw.states_le j
+  by_cases h : j < k
+  · have := hw.dotsOld j h; omega
+  · have := hw.dotsNew j (by omega); omega
+
+theorem wfc_addAt {c : Cfg} {cols : List Col} {k e : Nat} {s : St} (hw : WfC c cols k) (hke : k ≤ e)
+    (hok : Item.ok c e s.item) : WfC c (addAt .core cols e s) k := by
+  by_cases he : e < cols.length
+  · have hU : s.item ∈ c.U := ok_mem_U hok (by have := hw.len; omega)
+    refine ⟨by rw [length_addAt]; exact hw.len, ?_, ?_, ?_, ?_, ?_, ?_⟩
+    · intro j x hx
+      rw [colAt_addAt] at hx
+      split at hx
+      · rename_i hj
+        rcases Col.add_states_mem hx with h | h
+        · rw [hj.1]; exact hw.okS e x h
+        · rw [hj.1, h]; exact hok
+      · exact hw.okS j x hx
+    · intro j x hx
+      rw [colAt_addAt] at hx
+      split at hx
+      · rename_i hj
+        rcases Col.add_dots_mem hx with h | h
+        · rw [hj.1]; exact hw.okD e x h
+        · rw [hj.1, h]; exact hok
+      · exact hw.okD j x hx
+    · intro j hj
+      rw [colAt_addAt]
+      split
+      · rw [Col.add_states_core]
+        have hc := hw.cap e hke
+        cases hp : present (colAt cols e).states s.item
+        · have := free_append_lt c.U (colAt cols e).states s hU hp
+          simp only [Bool.false_eq_true, ↓reduceIte, List.length_append, List.length_singleton]
+          omega
+        · simpa using hc
+      · exact hw.cap j hj
+    · intro j hj
+      rw [colAt_addAt]
+      split
+      · rename_i h; omega
+      · exact hw.capOld j hj
+    · intro j hj
+      rw [colAt_addAt]
+      split
+      · exact Col.add_dots_len (hw.dotsNew e hke)
+      · exact hw.dotsNew j hj
+    · intro j hj
+      rw [colAt_addAt]
+      split
+      · rename_i h; omega
+      · exact hw.dotsOld j hj
+  · have : addAt .core cols e s = cols := by
+      unfold addAt; exact List.set_eq_of_length_le (Nat.le_of_not_lt he)
+    rw [this]; exact hw
+
+/-! ### the frame of an active `complete` call -/
+
+def frameLen (cols : List Col) (t : St) : Nat := ((colAt cols t.item.origin).findDot t.item.lhs).length
+
+def frameRem (cols : List Col) (frame : Option (St × Nat)) : Nat :=
+  match frame with
+  | none => 0
+  | some (t, j) => 1 + (frameLen cols t - j)
+
+theorem findDot_add_core (col : Col) (s : St) (x : NT) :
+    ((Col.add .core col s).findDot x).length ≤ (col.findDot x).length + admitted col s := by
+  unfold Col.findDot Col.add admitted
+  rw [any_dup_core]
+  cases h : present col.states s.item
+  · simp only [Bool.false_eq_true, ↓reduceIte]
+    split
+    · rw [List.filter_append]
+      simp only [List.length_append]
+      have := List.length_filter_le (fun s => s.item.dotNT? == some x) [s]
+      simp only [List.length_singleton] at this
+      omega
+    · omega
+  · simp
+
+theorem frameLen_addAt (cols : List Col) (e : Nat) (s t : St) :
+    frameLen (addAt .core cols e s) t ≤ frameLen cols t + credit cols e s := by
+  unfold frameLen credit
+  rw [colAt_addAt]
+  split
+  · rename_i h
+    rw [h.1]
+    simp only [h.2, ↓reduceIte]
+    exact findDot_add_core _ _ _
+  · omega
+
+/-! ### `place_repetition_shortcut` keeps the chart well-formed -/
+
+theorem length_replaceItem (it : Item) (new : St) (l : List St) : (replaceItem it new l).length = l.length := by
+  induction l with
+  | nil => rfl
+  | cons x xs ih => unfold replaceItem; split <;> simp [ih]
+
+theorem mem_replaceItem {it : Item} {new y : St} {l : List St} (h : y ∈ replaceItem it new l) : y ∈ l ∨ y = new := by
+  induction l with
+  | nil => simp [replaceItem] at h
+  | cons x xs ih =>
+    unfold replaceItem at h
+    split at h
+    · simp only [List.mem_cons] at h
+      rcases h with h | h
+      · exact Or.inr h
+      · exact Or.inl (by simp [h])
+    · simp only [List.mem_cons] at h
+      rcases h with h | h
+      · exact Or.inl (by simp [h])
+      · rcases ih h with h | h
+        · exact Or.inl (by simp [h])
+        · exact Or.inr h
+
+theorem length_eraseItem_le (it : Item) (l : List St) : (eraseItem it l).length ≤ l.length := by
+  induction l with
+  | nil => simp [eraseItem]
+  | cons x xs ih => unfold eraseItem; split <;> simp <;> omega
+
+theorem mem_eraseItem {it : Item} {y : St} {l : List St} (h : y ∈ eraseItem it l) : y ∈ l := by
+  induction l with
+  | nil => simp [eraseItem] at h
+  | cons x xs ih =>
+    unfold eraseItem at h
+    split at h
+    · simp [h]
+    · simp only [List.mem_cons] at h
+      rcases h with h | h
+      · simp [h]
+      · simp [ih h]
+
+theorem Col.replace_states_len (col : Col) (old new : St) : (col.replace old new).states.length = col.states.length := by
+  unfold Col.replace; simp [length_replaceItem]
+
+theorem Col.replace_dots_len (col : Col) (old new : St) : (col.replace old new).dots.length ≤ col.dots.length + 1 := by
+  unfold Col.replace
+  simp only [List.length_append]
+  have h1 := length_eraseItem_le old.item col.dots
+  split <;> split <;> simp <;> omega
+
+theorem Col.replace_states_mem {col : Col} {old new y : St} (h : y ∈ (col.replace old new).states) :
+    y ∈ col.states ∨ y = new := by
+  unfold Col.replace at h; exact mem_replaceItem h
+
+theorem Col.replace_dots_mem {col : Col} {old new y : St} (h : y ∈ (col.replace old new).dots) :
+    y ∈ col.dots ∨ y = new := by
+  unfold Col.replace at h
+  simp only [List.mem_append] at h
+  rcases h with h | h
+  · left
+    split at h
+    · exact mem_eraseItem h
+    · exact h
+  · split at h
+    · simp at h; exact Or.inr h
+    · simp at h
+
+theorem mem_findDot {col : Col} {x : NT} {s : St} (h : s ∈ col.findDot x) : s ∈ col.dots := by
+  unfold Col.findDot at h; exact (List.mem_filter.1 h).1
+
+theorem shortcutWalk_ok {c : Cfg} {cols : List Col} {x : NT} {k : Nat}
+    (hD : ∀ j s, s ∈ (colAt cols j).dots → Item.ok c j s.item) :
+    ∀ (fuel : Nat) (new o r : St), Item.ok c k new.item → o ∈ (colAt cols new.item.origin).dots →
+      shortcutWalk cols x fuel new o = some r → Item.ok c k r.item := by
+  intro fuel
+  induction fuel with
+  | zero => intro new o r _ _ h; simp [shortcutWalk] at h
+  | succ f ih =>
+    intro new o r hnew ho h
+    unfold shortcutWalk at h
+    split at h
+    · cases h; exact hnew
+    · have hoo := hD _ _ ho
+      have hnew' : Item.ok c k ({ new.item with origin := o.item.origin } : Item) :=
+        ⟨hnew.1, hnew.2.1, by have := hoo.2.2; have := hnew.2.2; simp only; omega⟩
+      simp only at h
+      split at h
+      · rename_i o' heq
+        have ho' : o' ∈ (colAt cols o.item.origin).dots := by
+          apply mem_findDot (x := x)
+          rw [heq]; simp
+        exact ih ({ item := { new.item with origin := o.item.origin }, kids := o.kids ++ new.kids } : St) o' r hnew' ho' h
+      · cases h
+
+/-- invariant of the fold over the beginners -/
+structure ShInv (c : Cfg) (cols0 cols : List Col) (k r : Nat) : Prop where
+  len : cols.length = cols0.length
+  other : ∀ j, j ≠ k → colAt cols j = colAt cols0 j
+  dropEq : cols.drop (k + 1) = cols0.drop (k + 1)
+  slen : (colAt cols k).states.length = (colAt cols0 k).states.length
+  dlen : (colAt cols k).dots.length ≤ (colAt cols0 k).dots.length + r
+  okS : ∀ s, s ∈ (colAt cols k).states → Item.ok c k s.item
+  okD : ∀ j s, s ∈ (colAt cols j).dots → Item.ok c j s.item
+
+theorem shInv_set {c : Cfg} {cols0 cols : List Col} {k r : Nat} (hi : ShInv c cols0 cols k r) (col' : Col)
+    (h1 : col'.states.length = (colAt cols k).states.length)
+    (h2 : col'.dots.length ≤ (colAt cols k).dots.length + 1)
+    (h3 : ∀ s, s ∈ col'.states → Item.ok c k s.item) (h4 : ∀ s, s ∈ col'.dots → Item.ok c k s.item) :
+    ShInv c cols0 (cols.set k col') k (r + 1) := by
+  refine ⟨by simp [hi.len], ?_, ?_, ?_, ?_, ?_, ?_⟩
+  · intro j hj
+    rw [colAt_set]
+    have : ¬ (j = k ∧ k < cols.length) := fun h => hj h.1
+    simp only [this, ↓reduceIte]
+    exact hi.other j hj
+  · rw [List.drop_set]; simp [hi.dropEq]
+  · rw [colAt_set]
+    split
+    · rw [h1, hi.slen]
+    · exact hi.slen
+  · rw [colAt_set]
+    split
+    · have := hi.dlen; omega
+    · have := hi.dlen; omega
+  · intro s hs
+    rw [colAt_set] at hs
+    split at hs
+    · exact h3 s hs
+    · exact hi.okS s hs
+  · intro j s hs
+    rw [colAt_set] at hs
+    split at hs
+    · rename_i h; rw [h.1]; exact h4 s hs
+    · exact hi.okD j s hs
+
+theorem shInv_weaken {c : Cfg} {cols0 cols : List Col} {k r : Nat} (hi : ShInv c cols0 cols k r) :
+    ShInv c cols0 cols k (r + 1) :=
+  ⟨hi.len, hi.other, hi.dropEq, hi.slen, by have := hi.dlen; omega, hi.okS, hi.okD⟩
+
+theorem shInv_one {c : Cfg} {cols0 cols : List Col} {k r : Nat} (x : NT) (hi : ShInv c cols0 cols k r) :
+    ShInv c cols0 (shortcutOne cols k x) k (r + 1) := by
+  unfold shortcutOne
+  simp only
+  split
+  · exact shInv_weaken hi
+  · rename_i cur hcur
+    have hcurmem : cur ∈ (colAt cols k).states := List.mem_of_find?_eq_some hcur
+    have hcurok := hi.okS cur hcurmem
+    split
+    · rename_i o ho
+      have homem : o ∈ (colAt cols cur.item.origin).dots := by
+        apply mem_findDot (x := x); rw [ho]; simp
+      split
+      · rename_i new hnew
+        have hnewok := shortcutWalk_ok (k := k) hi.okD _ cur o new hcurok homem hnew
+        apply shInv_set hi
+        · exact Col.replace_states_len _ _ _
+        · exact Col.replace_dots_len _ _ _
+        · intro s hs
+          rcases Col.replace_states_mem hs with h | h
+          · exact hi.okS s h
+          · rw [h]; exact hnewok
+        · intro s hs
+          rcases Col.replace_dots_mem hs with h | h
+          · exact hi.okD k s h
+          · rw [h]; exact hnewok
+      · exact shInv_weaken hi
+    · exact shInv_weaken hi
+
+theorem shInv_fold {c : Cfg} {cols0 : List Col} {k : Nat} (l : List NT) :
+    ∀ (cols : List Col) (r : Nat), ShInv c cols0 cols k r →
+      ShInv c cols0 (l.foldl (fun cs x => shortcutOne cs k x) cols) k (r + l.length) := by
+  induction l with
+  | nil => intro cols r h; simpa using h
+  | cons x xs ih =>
+    intro cols r h
+    simp only [List.foldl_cons, List.length_cons]
+    have := ih _ _ (shInv_one x h)
+    have e : r + 1 + xs.length = r + (xs.length + 1) := by omega
+    rw [e] at this; exact this
+
+theorem length_dedupNT_le (l : List NT) : (dedupNT l).length ≤ l.length := by
+  induction l with
+  | nil => simp [dedupNT]
+  | cons x xs ih =>
+    simp only [dedupNT, List.length_cons]
+    have := List.length_filter_le (fun y => !decide (y = x)) (dedupNT xs)
+    omega
+
+theorem length_beginnersOf_le (col : Col) : (beginnersOf col).length ≤ col.states.length := by
+  unfold beginnersOf
+  exact Nat.le_trans (length_dedupNT_le _) (List.length_filterMap_le _ _)
+
+theorem shInv_shortcut {c : Cfg} {cols : List Col} {k : Nat} (hw : WfC c cols k) :
+    ShInv c cols (shortcut cols k) k (colAt cols k).states.length := by
+  have h0 : ShInv c cols cols k 0 :=
+    ⟨rfl, fun _ _ => rfl, rfl, rfl, by omega, fun s hs => hw.okS k s hs, hw.okD⟩
+  have := shInv_fold (c := c) (beginnersOf (colAt cols k)) cols 0 h0
+  unfold shortcut
+  refine ⟨this.len, this.other, this.dropEq, this.slen, ?_, this.okS, this.okD⟩
+  have hb := length_beginnersOf_le (colAt cols k)
+  have := this.dlen
+  omega
+
+theorem wfc_shortcut {c : Cfg} {cols : List Col} {k : Nat} (hw : WfC c cols k) :
+    WfC c (shortcut cols k) (k + 1) := by
+  have hi := shInv_shortcut hw
+  refine ⟨by rw [hi.len]; exact hw.len, ?_, hi.okD, ?_, ?_, ?_, ?_⟩
+  · intro j s hs
+    by_cases hj : j = k
+    · subst hj; exact hi.okS s hs
+    · rw [hi.other j hj] at hs; exact hw.okS j s hs
+  · intro j hj
+    rw [hi.other j (by omega)]; exact hw.cap j (by omega)
+  · intro j hj
+    by_cases hjk : j = k
+    · subst hjk; rw [hi.slen]; exact hw.states_le j
+    · rw [hi.other j hjk]; exact hw.capOld j (by omega)
+  · intro j hj
+    rw [hi.other j (by omega)]; exact hw.dotsNew j (by omega)
+  · intro j hj
+    by_cases hjk : j = k
+    · subst hjk
+      have h1 := hi.dlen
+      have h2 := hw.dotsNew j (Nat.le_refl _)
+      rw [hi.slen]; omega
+    · rw [hi.other j hjk]; exact hw.dotsOld j (by omega)
+
+/-! ### one step of the machine under the core policy -/
+
+structure Wf (c : Cfg) (m : M) : Prop where
+  cols : WfC c m.cols m.k
+  frameOk : ∀ t i, m.frame = some (t, i) → Item.ok c m.k t.item
+
+/-- the termination measure: admissible items not yet admitted (weight `A+1`), states not yet
+    processed (weight `A`), what is left of the active `complete` loop, columns left -/
+def mu (c : Cfg) (m : M) : Nat :=
+  phi c.U c.A m.cols m.k m.idx + frameRem m.cols m.frame + (c.ncols - m.k)
+
+theorem sym?_lt {it : Item} {y : ESym} (h : it.sym? = some y) : it.dot < it.rhs.length := by
+  unfold Item.sym? at h
+  exact (List.getElem?_eq_some_iff.1 h).1
+
+theorem dotNT?_sym? {it : Item} {x : NT} (h : it.dotNT? = some x) : ∃ y, it.sym? = some y := by
+  unfold Item.dotNT? at h
+  cases hs : it.sym? with
+  | none => simp [hs] at h
+  | some y => exact ⟨y, rfl⟩
+
+theorem ok_next {c : Cfg} {j j' : Nat} {it : Item} {y : ESym} (h : Item.ok c j it) (hy : it.sym? = some y)
+    (hj : j ≤ j') : Item.ok c j' it.next := by
+  have := sym?_lt hy
+  exact ⟨h.1, by simp only [Item.next]; omega, by simp only [Item.next]; have := h.2.2; omega⟩
+
+theorem rules_sub {c : Cfg} {r : CRule} (h : r ∈ c.rules) : r ∈ c.rules' := by
+  unfold Cfg.rules'; simp [h]
+
+theorem phi_idx_succ (U : List Item) (A : Nat) (cols : List Col) (k idx : Nat) (hk : k < cols.length)
+    (hidx : idx < (colAt cols k).states.length) :
+    phi U A cols k (idx + 1) + A ≤ phi U A cols k idx := by
+  unfold phi
+  rw [List.drop_eq_getElem_cons hk]
+  rw [colAt_eq_getElem cols k hk] at hidx
+  simp only [potCols, wcur]
+  have : cols[k].states.length - idx = (cols[k].states.length - (idx + 1)) + 1 := by omega
+  rw [this, Nat.mul_add]; omega
+
+theorem fold_pred {c : Cfg} {k : Nat} (x : NT) (idx : Nat) (alts : List (List ESym))
+    (hal : ∀ rhs, rhs ∈ alts → (x, rhs) ∈ c.rules) :
+    ∀ cols : List Col, WfC c cols k →
+      WfC c (alts.foldl (fun cs rhs => addAt .core cs k
+              { item := { lhs := x, rhs := rhs, dot := 0, origin := k }, kids := [] }) cols) k
+      ∧ phi c.U c.A (alts.foldl (fun cs rhs => addAt .core cs k
+              { item := { lhs := x, rhs := rhs, dot := 0, origin := k }, kids := [] }) cols) k idx
+          ≤ phi c.U c.A cols k idx := by
+  induction alts with
+  | nil => intro cols hw; exact ⟨hw, Nat.le_refl _⟩
+  | cons rhs rest ih =>
+    intro cols hw
+    simp only [List.foldl_cons]
+    have hok : Item.ok c k ({ lhs := x, rhs := rhs, dot := 0, origin := k } : Item) :=
+      ⟨rules_sub (hal rhs (by simp)), Nat.zero_le _, Nat.le_refl _⟩
+    have hw' := wfc_addAt (s := { item := { lhs := x, rhs := rhs, dot := 0, origin := k }, kids := [] })
+      hw (Nat.le_refl k) hok
+    have hlen : k ≤ c.ncols ∨ True := Or.inr trivial
+    by_cases hkn : k ≤ c.ncols
+    · have hU := ok_mem_U hok hkn
+      have hphi := phi_addAt c.U c.A cols k idx k
+        { item := { lhs := x, rhs := rhs, dot := 0, origin := k }, kids := [] } (Nat.le_refl k) hU
+      obtain ⟨h1, h2⟩ := ih (fun r hr => hal r (by simp [hr])) _ hw'
+      exact ⟨h1, by omega⟩
+    · -- column beyond the table: `addAt` does nothing
+      have hno : addAt .core cols k
+          { item := { lhs := x, rhs := rhs, dot := 0, origin := k }, kids := [] } = cols := by
+        unfold addAt
+        exact List.set_eq_of_length_le (by have := hw.len; omega)
+      rw [hno]
+      exact ih (fun r hr => hal r (by simp [hr])) _ hw
+
+theorem advance_core (k : Nat) (t s : St) :
+    ∃ s', advance .core k t s = some s' ∧ s'.item = s.item.next := by
+  unfold advance
+  exact ⟨_, rfl, rfl⟩
+
+theorem step_core {c : Cfg} (hs : Sane c) (hp : c.policy = .core) {m m' : M} (hw : Wf c m)
+    (h : step c m = .next m') : Wf c m' ∧ mu c m' < mu c m := by
+  have hlen := hw.cols.len
+  unfold step at h
+  split at h
+  · cases h
+  · rename_i hk
+    have hk : m.k < c.ncols := by omega
+    have hkl : m.k < m.cols.length := by omega
+    split at h
+    · -- an active `complete`
+      rename_i t j hfr
+      have htok := hw.frameOk t j hfr
+      split at h
+      · -- the loop is over
+        rename_i hnone
+        cases h
+        refine ⟨⟨hw.cols, by intro t i hh; cases hh⟩, ?_⟩
+        unfold mu
+        simp only [hfr, frameRem]
+        omega
+      · rename_i s hsome
+        have hsmem : s ∈ (colAt m.cols t.item.origin).findDot t.item.lhs := List.mem_of_getElem? hsome
+        have hjlt : j < frameLen m.cols t := by
+          unfold frameLen
+          exact (List.getElem?_eq_some_iff.1 hsome).1
+        have hsok := hw.cols.okD _ _ (mem_findDot hsmem)
+        have hdot : s.item.dotNT? = some t.item.lhs := by
+          unfold Col.findDot at hsmem
+          have := (List.mem_filter.1 hsmem).2
+          simpa using this
+        obtain ⟨y, hy⟩ := dotNT?_sym? hdot
+        have hs'ok : Item.ok c m.k s.item.next := ok_next hsok hy htok.2.2
+        rw [hp] at h
+        obtain ⟨s', hadv, hitem⟩ := advance_core m.k t s
+        rw [hadv] at h
+        simp only at h
+        cases h
+        have hs'ok' : Item.ok c m.k s'.item := by rw [hitem]; exact hs'ok
+        refine ⟨⟨wfc_addAt hw.cols (Nat.le_refl _) hs'ok', ?_⟩, ?_⟩
+        · intro t' i hh
+          simp only [Option.some.injEq, Prod.mk.injEq] at hh
+          rw [← hh.1]; exact htok
+        · unfold mu
+          simp only [hfr, frameRem]
+          have h1 := phi_addAt c.U c.A m.cols m.k m.idx m.k s' (Nat.le_refl _) (ok_mem_U hs'ok' (by omega))
+          have h2 := frameLen_addAt m.cols m.k s' t
+          omega
+    · rename_i hfr
+      split at h
+      · -- end of the column
+        cases h
+        refine ⟨⟨wfc_shortcut hw.cols, by intro t i hh; simp [hfr] at hh⟩, ?_⟩
+        unfold mu
+        simp only [hfr, frameRem]
+        have hi := shInv_shortcut hw.cols
+        have e1 : phi c.U c.A (shortcut m.cols m.k) (m.k + 1) 0
+            = ((m.cols.drop (m.k + 1)).map (wcol c.U c.A)).sum := by
+          unfold phi; rw [hi.dropEq, potCols_zero]
+        have e2 : phi c.U c.A m.cols m.k m.idx
+            = wcur c.U c.A m.idx m.cols[m.k] + ((m.cols.drop (m.k + 1)).map (wcol c.U c.A)).sum := by
+          unfold phi; rw [List.drop_eq_getElem_cons hkl]; rfl
+        rw [e1, e2]; omega
+      · rename_i s hsome
+        have hsmem : s ∈ (colAt m.cols m.k).states := List.mem_of_getElem? hsome
+        have hidx : m.idx < (colAt m.cols m.k).states.length := (List.getElem?_eq_some_iff.1 hsome).1
+        have hsok := hw.cols.okS _ _ hsmem
+        have hA : c.A = 2 * c.U.length + 3 := rfl
+        have hstep := phi_idx_succ c.U c.A m.cols m.k m.idx hkl hidx
+        split at h
+        · -- finished: open the frame
+          cases h
+          refine ⟨⟨hw.cols, ?_⟩, ?_⟩
+          · intro t i hh
+            simp only [Option.some.injEq, Prod.mk.injEq] at hh
+            rw [← hh.1]; exact hsok
+          · unfold mu
+            simp only [hfr, frameRem]
+            have hL : frameLen m.cols s ≤ 2 * c.U.length := by
+              unfold frameLen Col.findDot
+              exact Nat.le_trans (List.length_filter_le _ _) (hw.cols.dots_le _)
+            omega
+        · split at h
+          · cases h
+            refine ⟨⟨hw.cols, by intro t i hh; simp [hfr] at hh⟩, ?_⟩
+            unfold mu; simp only [hfr, frameRem]; omega
+          · -- predict
+            rename_i x a r hsym
+            cases h
+            have hal : ∀ rhs, rhs ∈ c.pred m.k x → (x, rhs) ∈ c.rules := fun rhs hr => hs.pred _ _ _ hr
+            rw [hp]
+            obtain ⟨h1, h2⟩ := fold_pred (c := c) (k := m.k) x (m.idx + 1) (c.pred m.k x) hal m.cols hw.cols
+            refine ⟨⟨h1, by intro t i hh; simp [hfr] at hh⟩, ?_⟩
+            unfold mu; simp only [hfr, frameRem]; omega
+          · -- scan
+            rename_i term hsym
+            split at h
+            · cases h
+              refine ⟨⟨hw.cols, by intro t i hh; simp [hfr] at hh⟩, ?_⟩
+              unfold mu; simp only [hfr, frameRem]; omega
+            · rename_i e l hscan
+              split at h
+              · cases h
+              · rename_i he
+                cases h
+                have hke := hs.scan _ _ _ _ hscan
+                have hok' : Item.ok c e s.item.next := ok_next hsok hsym hke
+                rw [hp]
+                refine ⟨⟨wfc_addAt hw.cols hke hok', by intro t i hh; simp [hfr] at hh⟩, ?_⟩
+                unfold mu; simp only [hfr, frameRem]
+                have := phi_addAt c.U c.A m.cols m.k (m.idx + 1) e
+                  { item := s.item.next, kids := s.kids ++ [PT.leaf l], cover := s.cover } hke
+                  (ok_mem_U hok' (by omega))
+                omega
 
 end FV.Earley
